@@ -246,6 +246,29 @@ func runC08(x *X) {
 		x.State(g.ShapeKey())
 		c08Check(x, c, &c08Input{g: g}, nil)
 	})
+	x.Explore("huge-declared-width", ExploreOpts{Bound: "an item declaring a display width of 2^16 or 2^20+5 cells next to short cells x 3 alignments"}, func(c *Chooser) {
+		w := []int{1 << 16, 1<<20 + 5}[c.Choose(2)]
+		al := []interface{}{nil, align.Right, align.Center}[c.Choose(3)]
+		it, _ := mkItem(mS|mW, false, ItemF{S: "big", W: w})
+		t := markdown.New()
+		t.AddHeaders("h1", "h2")
+		t.AddRowItems(it, "x")
+		t.AddRowItems("tiny", "y")
+		if al != nil {
+			t.Column(1).SetProperty(align.PropertyType, al)
+		}
+		g := &Grid{HasHeader: true, Header: []string{"h1", "h2"}, Rows: []GridRow{{Cells: []string{"big", "x"}}, {Cells: []string{"tiny", "y"}}}}
+		c.Logf("markdown table with an item declaring TerminalCellWidth()=%d, column 1 alignment %s", w, alignName(al))
+		var out string
+		var err error
+		if p, val, site := Safe(func() { out, err = t.Render() }); p {
+			x.FailSite("C08.no_panic", []string{"panic", "huge_declared_width"}, site, "markdown Render panicked: %v", val)
+			return
+		}
+		x.Transition(1)
+		x.Nontrivial(fmt.Sprint(w, alignName(al)))
+		c08Judge(x, &c08Input{g: g, aligns: []interface{}{nil, al}}, []string{"huge_declared_width"}, out, err)
+	})
 	long := LongTexts("|")
 	x.Explore("long-texts", ExploreOpts{ShardDepth: 2, Bound: fmt.Sprintf("6 positions x %d long texts (63..1025 bytes, with a pipe in the middle/at the end, multi-byte, 40 lines)", len(long))}, func(c *Chooser) {
 		p := positions[c.Choose(len(positions))]
